@@ -17,6 +17,9 @@ Arguments N.add : simpl never. Arguments N.max : simpl never. Arguments N.leb : 
 (* (bound for table satisfactions, bound for table dissatisfactions) *)
 Fixpoint pcms (m : ms) : N * N :=
   match m with
+  | MAlt x | MSwap x | MCheck x | MZeroNotEqual x => pcms x
+  | MVerify x => (fst (pcms x), 0)
+  | MDupIf x => (fst (pcms x), 0)
   | MNonZero x => (fst (pcms x), 0)
   | MOrD x z => (N.max (fst (pcms x)) (snd (pcms x) + fst (pcms z)), snd (pcms x) + snd (pcms z))
   | MOrI x z => (N.max (fst (pcms x)) (fst (pcms z)), N.max (snd (pcms x)) (snd (pcms z)))
@@ -159,11 +162,103 @@ Section OpsTrace.
     - eapply bnd_le; [apply Hr; pose proof (proj2 (Iz c a rest al) Ha) as B; rewrite (instk_nw _ _ _ _ Hbz) in B; exact B | lia].
   Qed.
 
+  (* ---- wrappers ---- *)
+  Ltac one_child IH Ht Hwf Hnm Hms tx Hx Ix :=
+    cbn [type_of] in Ht; apply rbind_ok in Ht; destruct Ht as [tx [Hx Ht]];
+    cbn [wf no_multi multi_small] in Hwf, Hnm, Hms; pose proof (IH tx Hx Hwf Hnm Hms) as Ix.
+
+  Lemma ts_alt x : TS x -> TS (MAlt x).
+  Proof.
+    intros IH t Ht Hwf Hnm Hms. one_child IH Ht Hwf Hnm Hms tx Hx Ix.
+    assert (Hb : c_base (t_corr tx) = BB /\ c_base (t_corr t) = BW).
+    { destruct tx as [[bx ix dx ux] mx]. unf Ht. destruct bx; try discriminate; inversion Ht; subst; auto. }
+    destruct Hb as [Hbx Hbt]. rewrite Hbt. rewrite Hbx in Ix. cbn [instk] in *.
+    intros c w rest al. cbn [enc pcms].
+    assert (G : forall n, bnd e (enc ke x) (mkSt (w ++ rest) (c :: al)) n ->
+                bnd e ([IOp OP_TOALTSTACK] ++ enc ke x ++ [IOp OP_FROMALTSTACK]) (mkSt (c :: w ++ rest) al) n).
+    { intros n Hn. cbn [app]. apply bnd_op; [reflexivity|]. intros st1 E1. cbn [exec_op stk alt] in E1. inversion E1; subst st1.
+      apply bnd_app_glue; [reflexivity|exact Hn]. }
+    split; intros Hin; apply G; [exact (proj1 (Ix c w rest (c :: al)) Hin) | exact (proj2 (Ix c w rest (c :: al)) Hin)].
+  Qed.
+
+  Lemma ts_swap x : TS x -> TS (MSwap x).
+  Proof.
+    intros IH t Ht Hwf Hnm Hms. one_child IH Ht Hwf Hnm Hms tx Hx Ix.
+    destruct (theoremA_closed e ke A HA Hse x tx Hx Hwf Hnm) as [_ [Hs Hd]].
+    assert (Hb : c_base (t_corr tx) = BB /\ c_base (t_corr t) = BW
+                 /\ (forall w, In w (sat x) -> length w = 1%nat) /\ (forall w, In w (dsat x) -> length w = 1%nat)).
+    { destruct tx as [[bx ix dx ux] mx]. unf Ht. cbn [t_corr c_input] in Hs, Hd.
+      destruct bx; try discriminate; destruct ix; try discriminate; inversion Ht; subst; clear Ht; cbn in Hs, Hd;
+        (split; [reflexivity|split; [reflexivity|split]]); intros w Hw; [apply Hs in Hw|apply Hd in Hw|apply Hs in Hw|apply Hd in Hw];
+        first [exact Hw | tauto]. }
+    destruct Hb as [Hbx [Hbt [L1 L2]]]. rewrite Hbt. rewrite Hbx in Ix. cbn [instk] in *.
+    intros c w rest al. cbn [enc pcms].
+    assert (G : forall n, length w = 1%nat -> bnd e (enc ke x) (mkSt (w ++ c :: rest) al) n ->
+                bnd e ([IOp OP_SWAP] ++ enc ke x) (mkSt (c :: w ++ rest) al) n).
+    { intros n HL Hn. destruct w as [|a [|b r]]; try discriminate. cbn [app] in *.
+      apply bnd_op; [reflexivity|]. intros st1 E1. cbn [exec_op stk alt] in E1. inversion E1; subst st1. exact Hn. }
+    split; intros Hin; (apply G; [first [exact (L1 w Hin) | exact (L2 w Hin)]|]);
+      [exact (proj1 (Ix c w (c :: rest) al) Hin) | exact (proj2 (Ix c w (c :: rest) al) Hin)].
+  Qed.
+
+  Lemma ts_check x : TS x -> TS (MCheck x).
+  Proof.
+    intros IH t Ht Hwf Hnm Hms. one_child IH Ht Hwf Hnm Hms tx Hx Ix.
+    assert (Hb : c_base (t_corr tx) = BK /\ c_base (t_corr t) = BB).
+    { destruct tx as [[bx ix dx ux] mx]. unf Ht. destruct bx; try discriminate; inversion Ht; subst; auto. }
+    destruct Hb as [Hbx Hbt]. rewrite Hbt. rewrite Hbx in Ix. cbn [instk] in *.
+    intros c w rest al. cbn [enc pcms].
+    split; intros Hin; (apply bnd_app_glue; [reflexivity|]);
+      [exact (proj1 (Ix c w rest al) Hin) | exact (proj2 (Ix c w rest al) Hin)].
+  Qed.
+
+  Lemma ts_zne x : TS x -> TS (MZeroNotEqual x).
+  Proof.
+    intros IH t Ht Hwf Hnm Hms. one_child IH Ht Hwf Hnm Hms tx Hx Ix.
+    assert (Hb : c_base (t_corr tx) = BB /\ c_base (t_corr t) = BB).
+    { destruct tx as [[bx ix dx ux] mx]. unf Ht. destruct bx; try discriminate; inversion Ht; subst; auto. }
+    destruct Hb as [Hbx Hbt]. rewrite Hbt. rewrite Hbx in Ix. cbn [instk] in *.
+    intros c w rest al. cbn [enc pcms].
+    split; intros Hin; (apply bnd_app_glue; [reflexivity|]);
+      [exact (proj1 (Ix c w rest al) Hin) | exact (proj2 (Ix c w rest al) Hin)].
+  Qed.
+
+  Lemma ts_verify x : TS x -> TS (MVerify x).
+  Proof.
+    intros IH t Ht Hwf Hnm Hms. one_child IH Ht Hwf Hnm Hms tx Hx Ix.
+    assert (Hb : c_base (t_corr tx) = BB /\ c_base (t_corr t) = BV).
+    { destruct tx as [[bx ix dx ux] mx]. unf Ht. destruct bx; try discriminate; inversion Ht; subst; auto. }
+    destruct Hb as [Hbx Hbt]. rewrite Hbt. rewrite Hbx in Ix. cbn [instk] in *.
+    intros c w rest al. cbn [enc pcms fst snd].
+    split; intros Hin; cbn [all_sat all_dsat sd fst snd] in Hin; [|contradiction].
+    apply bnd_pv. exact (proj1 (Ix c w rest al) Hin).
+  Qed.
+
+  (* d:X = DUP IF X ENDIF, X : Vz.  Dissatisfied with the empty vector: X is skipped. *)
+  Lemma ts_dupif x : TS x -> TS (MDupIf x).
+  Proof.
+    intros IH t Ht Hwf Hnm Hms. one_child IH Ht Hwf Hnm Hms tx Hx Ix.
+    destruct (theoremA_closed e ke A HA Hse x tx Hx Hwf Hnm) as [_ [Hs _]].
+    assert (Hb : c_base (t_corr tx) = BV /\ c_base (t_corr t) = BB /\ (forall w, In w (sat x) -> w = [])).
+    { destruct tx as [[bx ix dx ux] mx]. unf Ht. cbn [t_corr c_input] in Hs.
+      destruct bx; try discriminate; destruct ix; try discriminate. inversion Ht; subst; clear Ht. cbn in Hs. auto. }
+    destruct Hb as [Hbx [Hbt Hz]]. rewrite Hbt. rewrite Hbx in Ix. cbn [instk] in *.
+    intros c w rest al. cbn [enc pcms fst snd].
+    split; intros Hin; cbn [all_sat all_dsat sd fst snd] in Hin.
+    - apply in_map_iff in Hin. destruct Hin as [wx [<- Hwx]]. pose proof (Hz wx Hwx) as ->.
+      apply bnd_op; [reflexivity|]. intros st1 E1. cbn [exec_op stk alt app] in E1. inversion E1; subst st1; clear E1.
+      eapply bnd_if; [reflexivity | apply if_cond_one |]. cbn [xorb if_branch stk alt]. rewrite app_nil_r.
+      exact (proj1 (Ix c [] ([1] :: rest) al) Hwx).
+    - destruct Hin as [<-|[]].
+      apply bnd_op; [reflexivity|]. intros st1 E1. cbn [exec_op stk alt app] in E1. inversion E1; subst st1; clear E1.
+      eapply bnd_if; [reflexivity | apply if_cond_empty |]. cbn [xorb if_branch app]. apply bnd_nil.
+  Qed.
+
   Theorem ops_trace_table : forall m, TS m.
   Proof.
-    induction m using ms_ind'; try (apply ts_fallback; reflexivity).
-    - apply ts_nonzero; assumption.
-    - apply ts_or_d; assumption.
-    - apply ts_or_i; assumption.
+    induction m using ms_ind'; try (apply ts_fallback; reflexivity);
+      first [ apply ts_alt; assumption | apply ts_swap; assumption | apply ts_check; assumption
+            | apply ts_dupif; assumption | apply ts_verify; assumption | apply ts_nonzero; assumption
+            | apply ts_zne; assumption | apply ts_or_d; assumption | apply ts_or_i; assumption ].
   Qed.
 End OpsTrace.
